@@ -54,9 +54,11 @@ func (d *Dir) Write(files map[string][]byte) error {
 		return err
 	}
 
+	verifPoint("mkbase", "")
 	if err := os.MkdirAll(newDir, os.ModePerm); err != nil {
 		return err
 	}
+	verifPoint("mknew", newDir)
 
 	for file, b := range files {
 		path := filepath.Join(newDir, file)
@@ -64,6 +66,7 @@ func (d *Dir) Write(files map[string][]byte) error {
 			return err
 		}
 		d.log.Infof("Written file %s", file)
+		verifPoint("file", file)
 	}
 
 	if err := os.Symlink(newDir, d.target+".new"); err != nil {
@@ -71,12 +74,14 @@ func (d *Dir) Write(files map[string][]byte) error {
 	}
 
 	d.log.Infof("Syslink %s to %s.new", newDir, d.target)
+	verifPoint("symlink", "")
 
 	if err := os.Rename(d.target+".new", d.target); err != nil {
 		return err
 	}
 
 	d.log.Infof("Atomic write to %s", d.target)
+	verifPoint("rename", "")
 
 	if d.prev != nil {
 		if err := os.RemoveAll(*d.prev); err != nil {
@@ -84,6 +89,7 @@ func (d *Dir) Write(files map[string][]byte) error {
 		}
 	}
 
+	verifPoint("removeprev", "")
 	d.prev = &newDir
 
 	return nil
